@@ -44,6 +44,8 @@ type trOp struct {
 	Fuel int     `json:"fuel"`
 	// names of recorded calls the Go side cannot observe; zvdrv drops them from the field `ev` before comparing
 	Hide []string `json:"hide,omitempty"`
+	// receiver fields that are not compared (zvdrv drops them from its answer, the adapter does not report them)
+	Drop []string `json:"drop,omitempty"`
 }
 
 func tvInt(v int64) TV    { s := strconv.FormatInt(v, 10); return TV{I: &s} }
@@ -66,6 +68,7 @@ type trFn struct {
 	gen         func(r *Rand) ([]TV, []trFld)
 	run         func(args []TV, flds []trFld) ([]TV, []trFld)
 	hide        []string
+	drop        []string
 }
 
 var trFns []trFn
@@ -107,7 +110,7 @@ func genCTR(r *Rand, tier string, emit func(op any)) {
 			if flds == nil {
 				flds = []trFld{}
 			}
-			emit(trOp{T: f.table, F: f.name, Args: args, Flds: flds, Fuel: 100000, Hide: f.hide})
+			emit(trOp{T: f.table, F: f.name, Args: args, Flds: flds, Fuel: 100000, Hide: f.hide, Drop: f.drop})
 		}
 	}
 }
